@@ -209,8 +209,8 @@ func init() {
 		Profile: Profile{Prop: "C16", NoRef: true, Keys: [2]int{1, 6}},
 		OpW:     zeroExcept(map[string]int{"set": 44, "setifabsent": 4, "compute": 8, "invalidate": 10, "get": 6, "computeifpresent": 3}),
 		Tasks:   [2]int{1, 4}, OpsPer: [2]int{8, 40}, Prefill: [2]int{0, 4},
-		Executors:  []string{"sync", "queued", "queued"},
-		NonTrivial: func(o *ConcOutcome) bool { return o.Probes["producer-order-notifications-checked"] > 1 },
+		Executors:  []string{"sync", "queued", "queued", "default"},
+		NonTrivial: func(o *ConcOutcome) bool { return o.Probes["producer-order-notifications-checked"] > 1 || o.Switches > 4 },
 	}
 	Props["C16"].Engines = append(Props["C16"].Engines, &concEngine{opts: c16})
 	Props["C16"].Conc = c16
